@@ -95,8 +95,10 @@ Definition mat_close (bound : Qc) (A B : list (list Qc)) (r c : nat) : bool :=
 
 (* function preservation, evaluated at a point with the Cox-de Boor reference *)
 Definition preserves_at (kv1 kv2 : list Qc) (p : nat) (P : list (list Qc)) (x : Qc) : bool :=
+  let n2 := numdofs kv2 p in
+  let v2 := map (fun j => Nref kv2 p j x) (seq 0 n2) in      (* fine basis values, computed once *)
   forallb (fun i => qeqb (Nref kv1 p i x)
-                         (bigsum (numdofs kv2 p) (fun j => get2 P j i * Nref kv2 p j x)))
+                         (bigsum n2 (fun j => get2 P j i * nth j v2 0)))
           (seq 0 (numdofs kv1 p)).
 
 Definition rows_sum_one (P : list (list Qc)) (r c : nat) : bool :=
